@@ -3,6 +3,8 @@ package logqlengine
 import (
 	"maps"
 	"regexp"
+	"slices"
+	"strings"
 
 	"github.com/cespare/xxhash/v2"
 	"go.opentelemetry.io/collector/pdata/pcommon"
@@ -69,11 +71,21 @@ func (a *aggregatedLabels) Without(labels ...logql.Label) logqlmetric.Aggregated
 
 // Key computes grouping key from set of labels.
 func (a *aggregatedLabels) Key() logqlmetric.GroupingKey {
-	h := xxhash.New()
+	// The key must be a function of the visible label set alone: entries are
+	// materialized in map iteration order, so hash them in name order.
+	var visible []labelEntry
 	a.forEach(func(k, v string) {
-		_, _ = h.WriteString(k)
-		_, _ = h.WriteString(v)
+		visible = append(visible, labelEntry{name: k, value: v})
 	})
+	slices.SortFunc(visible, func(x, y labelEntry) int {
+		return strings.Compare(x.name, y.name)
+	})
+
+	h := xxhash.New()
+	for _, e := range visible {
+		_, _ = h.WriteString(e.name)
+		_, _ = h.WriteString(e.value)
+	}
 	return h.Sum64()
 }
 
